@@ -172,8 +172,6 @@ def gen(ch):
             st["start"] = s_
         if e_:
             st["end"] = e_
-        if kind == "structured_ob" and (s_ or e_):
-            return None   # an order book cannot be given a life time in the flat reference portfolio
         iw = ch.pick("inner.window", [None, (("gp", 1), None), (None, ("gp", T - 1)), (("gp", 2), ("gp", T)), (None, ("gp", 2))])
         if iw:
             s2, e2 = S.resolve_window(g, iw)
@@ -232,9 +230,28 @@ def flat_structured(scn):
     out = copy.deepcopy(scn)
     g = Grid.from_json(scn["grid"])
     from ref.grid import parse_instant
+    def clip_orders(x, a):
+        """an order book has no life time of its own: inside a structured asset with a life time its orders deliver in the steps of
+        that life time only - in the flat portfolio the same is said by clipping the orders (orders left without any time drop out)"""
+        o = x["orders"]
+        keep = dict(start=[], end=[], capa=[], price=[])
+        for s0, e0, c0, p0 in zip(o["start"], o["end"], o["capa"], o["price"]):
+            s1 = max([v for v in (s0, a.get("start")) if v], key=lambda v: parse_instant(v, g.tz))
+            e1 = min([v for v in (e0, a.get("end")) if v], key=lambda v: parse_instant(v, g.tz))
+            if parse_instant(s1, g.tz) < parse_instant(e1, g.tz):
+                for k_, v_ in (("start", s1), ("end", e1), ("capa", c0), ("price", p0)):
+                    keep[k_].append(v_)
+        x["orders"] = keep
+
     def flatten(a):
         inner = []
         for x in copy.deepcopy(a["portfolio"]):
+            if x["type"] == "OrderBook":
+                if a.get("start") or a.get("end"):
+                    clip_orders(x, a)
+                if x["orders"]["start"]:
+                    inner.append(x)
+                continue
             for key, pick in (("start", max), ("end", min)):
                 vals = [v for v in (x.get(key), a.get(key)) if v]
                 if vals:
